@@ -247,6 +247,23 @@ def _worker(args):
         for name, b in crafted_bec2(r, lambda off: body.to_binary(off, plan0.key)):
             for which in ("none", "private", "wrong", "public-only"):
                 do_bec2(hex_text(b), plan0, which, "crafted:" + name)
+        # ECC blocks and decryptors for key selectors OUTSIDE the four published slots (the constructors accept any byte): valid,
+        # truncated and damaged files read with the matching decryptor, a non-matching one and none
+        from bec2format.bec2file import InitEccAuthBlock as _IEB
+        for sel in (4, 7, 200, 255):
+            priv_, pub_ = rcpts.pick(r)
+            try:
+                rawb = _IEB(sel).pack(plan0.key, [B2.enc_ecc_pub(sel, pub_)[0]])
+            except Exception:                                  # noqa: BLE001 -- the writer refuses such a selector: nothing to read
+                continue
+            seams.take()
+            h = BEC2_FILE_SIG + bytes([3, len(rawb)]) + rawb + b"\x00\x00"
+            full = h + body.to_binary(len(h), plan0.key)
+            for variant, bb in (("valid", full), ("cut", full[:len(h) - 9]), ("damaged", full[:20] + bytes([full[20] ^ 1]) + full[21:])):
+                for decs_, privs_ in (([B2.dec_ecc(sel, priv_)], {sel: priv_}), ([B2.dec_ecc((sel + 1) % 256, priv_)], {}), ([], {})):
+                    t_ = hex_text(bb)
+                    call(rec, "Bec2File.read_file[selector-%d]" % sel, lambda: Bec2File.read_file(io.StringIO(t_), [d[0] for d in decs_]), label="crafted:odd-selector-" + variant)
+                    B2.rec_bec2_read(rec, t_, decs_, privs_, orc, True, label="crafted:odd-selector-" + variant)
         # well-formed containers (right key, valid CRC) around contents of unexpected length: only a key holder can make them
         for kind, tag in (("update", 2), ("cust", 1)):
             enc = plan0.decs[kind][0]
